@@ -1,9 +1,11 @@
-"""Fees family pipeline: C17 (native supply and fee distribution are conserved).
+"""Fees family pipeline: C17 (native supply and fee distribution are conserved); contributes C11_Halt
+(a block phase panicked on the real app) to C11.
 
-1. exhaustive TLC run of spec/MC_Fees_q (intended model, DEVIATIONS = {}): the properties hold;
-   plus the deviation guard spec/MC_Fees_dev (model of the CURRENT code, DEVIATIONS = {"L11"}): TLC must
-   reproduce the listed deviation (InvBooked / InvSolvent violated), otherwise the known-findings entry
-   would be vacuous;
+1. exhaustive TLC run of spec/MC_Fees_q (model of the current tree, DEVIATIONS = {}): the properties hold;
+   guards: spec/MC_Fees_dev (the defect L11, fixed in 311e836, seeded into the model): InvBooked / InvSolvent
+   must be violated (the invariants can see it); spec/MC_Fees_avs (second AVS listed first): InvNoPanic must be
+   violated (lead L27 = known finding of C11 exists in the model of the current tree); spec/MC_Fees_acc (model
+   with the fix proposed for L27, second AVS before / after): every invariant holds;
 2. behaviours by `tlc -simulate` of spec/MC_Fees_g / MC_Fees_gen.cfg;
 3. replay on the real code: one fresh ExocoreApp per behaviour, real blocks (harness `fees`);
 4. trace validation with spec/Trace_Fees (property lane C17_*, strict lane STRICT_*).
@@ -15,7 +17,7 @@ import shutil
 
 import vlib
 
-PROPERTIES = ["C17"]
+PROPERTIES = ["C17", "C11"]
 
 WORLDS = {
     "v3a2": dict(module="MC_Fees_g.tla", gencfg="MC_Fees_gen.cfg",
@@ -26,6 +28,7 @@ WORLDS = {
 TAG_UNIVERSE = {
     "C17": ["C17_SupplyDelta", "C17_AllMoved", "C17_Booked", "C17_Solvent", "C17_Proportional", "C17_CommissionSplit",
             "C17_StakerPart", "C17_NonNegative"],
+    "C11": ["C11_Halt"],
 }
 
 
@@ -92,16 +95,23 @@ def _validate(harness, dt, behs, hcfg, seed, wname, res, counts, distinct):
         for c in ([cls] if isinstance(cls, str) else cls):
             counts[c] += 1
         distinct.add(json.dumps([ln["ev"], ln["a"], ln["ok"], lines[starts[bidx[i]]].get("setup")], sort_keys=True))
-    ndev = 0
+    ndev = collections.Counter()
     for t in tags:
         li = t["l"] - 1
         b = bidx[li]
-        if "DEV_L11" in t["tags"]:
-            ndev += 1
-            t["tags"] = [x for x in t["tags"] if x != "DEV_L11"]
+        devs = [x for x in t["tags"] if x.startswith("DEV_")]
+        if devs:
+            for x in devs:
+                ndev[x[4:]] += 1
+            t["tags"] = [x for x in t["tags"] if not x.startswith("DEV_")]
             if not t["tags"]:
                 continue
         hdr = lines[starts[b]]
+        if li > 0 and lines[li]["ev"] != "reset":
+            penv = lines[li - 1]["st"]["env"]
+            t["ctx"] = {"dist_ended": penv["distId"] in lines[li]["a"].get("ended", []),
+                        "fees_or_mint": lines[li - 1]["st"]["fc"] != "0" or (penv["mintId"] in lines[li]["a"].get("ended", []) and penv["reward"] != "0"),
+                        "operator_in_two_avs": any(len({x["avs"] for x in e["e"]}) >= 2 for e in penv["ent"])}
         pin = dict(hcfg, scales=[hdr["scale"]], pscales=[hdr["setup"]["pscale"]], dogfood=[hdr["setup"]["dogfood"]],
                    extraAvs=[hdr["setup"].get("extraAvs", 0)])
         t["world"] = {"name": wname, "hcfg": pin}
@@ -138,21 +148,26 @@ def _run(tier, seed, harness, d):
         if m["violated"]:
             raise vlib.Infra(f"model counterexample in {cfg}: {m['violated']} (lead, not a verdict)\n" + m["out"][-3000:])
         res["mc"].append(m)
-    # deviation guard: the model of the current code must show the listed deviation
-    mdev = vlib.tlc_mc(dm, "MC_Fees_q.tla", "MC_Fees_dev.cfg", timeout=600)
-    res["deviation_runs"] = [{"cfg": "MC_Fees_dev.cfg", "deviations": ["L11"], "violated": mdev["violated"], "wall_s": mdev["wall_s"]}]
-    # lead L27 at model level: a second AVS listed before the chain AVS makes AllocateTokensToStakers over-allocate -> panic
-    mavs = vlib.tlc_mc(dm, "MC_Fees_q.tla", "MC_Fees_avs.cfg", timeout=600)
-    res["deviation_runs"].append({"cfg": "MC_Fees_avs.cfg", "lead": "L27 (second AVS: negative remainder panics in BeginBlock)",
-                                  "violated": mavs["violated"], "wall_s": mavs["wall_s"]})
-    kf = [f for f in vlib.known_findings().get("findings", []) if f.get("property") == "C17"]
-    if kf and not set(mdev["violated"]) & {"InvBooked", "InvSolvent"}:
-        raise vlib.Infra("deviation L11 is listed as a known finding but the model with DEVIATIONS={L11} does not violate InvBooked/InvSolvent")
+    # guards (see module docstring)
+    res["deviation_runs"] = []
+
+    def guard(cfg, what, expect):
+        m = vlib.tlc_mc(dm, "MC_Fees_q.tla", cfg, timeout=900)
+        res["deviation_runs"].append({"cfg": cfg, "what": what, "violated": m["violated"], "expected": expect, "wall_s": m["wall_s"]})
+        if expect and not set(m["violated"]) & set(expect):
+            raise vlib.Infra(f"{cfg}: expected one of {expect} to be violated ({what}), got {m['violated']}")
+        if not expect and m["violated"]:
+            raise vlib.Infra(f"{cfg}: model counterexample {m['violated']} ({what})\n" + m["out"][-3000:])
+
+    guard("MC_Fees_dev.cfg", "defect L11 (fixed in 311e836) seeded into the model: the invariants must detect it", ["InvBooked", "InvSolvent"])
+    guard("MC_Fees_avs.cfg", "lead L27 on the current tree: second AVS listed first -> negative remainder panics", ["InvNoPanic"])
+    guard("MC_Fees_acc.cfg", "fix proposed for L27 (accumulate per staker): no panic, all invariants hold", [])
     # 2..4
     nbeh = 90 if tier == "quick" else 1200
     counts = collections.Counter()
     distinct = set()
-    total_beh = total_ev = ndev = 0
+    total_beh = total_ev = 0
+    ndev = collections.Counter()
     for wname, w in WORLDS.items():
         dg = os.path.join(d, "gen-" + wname)
         os.makedirs(dg)
@@ -164,7 +179,7 @@ def _run(tier, seed, harness, d):
             nb, ne, lines, nd = _validate(harness, dt, behs[ci:ci + chunk], w["hcfg"], seed + ci, wname, res, counts, distinct)
             total_beh += nb
             total_ev += ne
-            ndev += nd
+            ndev.update(nd)
             if not res["samples"]:
                 res["samples"] = [{"behaviour": json.loads(behs[0]),
                                    "first_trace_lines": [{k: v for k, v in ln.items() if k != "st"} for ln in lines[1:8]]}]
@@ -179,7 +194,7 @@ def _run(tier, seed, harness, d):
     if missing or counts["BeginBlock:dist"] + counts["BeginBlock:dist+mint"] == 0 or counts["BeginBlock:mint"] + counts["BeginBlock:dist+mint"] == 0:
         raise vlib.Infra(f"vacuous run: classes never executed: {missing} (event_counts={dict(counts)})")
     res["leads_observed"] = {"L27_BeginBlock_panic_negative_coin_amount": counts["BeginBlock:PANIC"]}
-    res["deviation_steps_observed"] = {"L11": ndev}
+    res["deviation_steps_observed"] = dict(ndev)
     res["rule"] = ("behaviours = TLC -simulate runs of MC_Fees_g (world chosen by the Setup event), concretised with seed-chosen amount and power "
                    "scales and replayed on a fresh real app each; event_counts classify every executed step (which identifiers ended, "
                    "fees/power zero or not, staker listed twice, ...); distinct_nontrivial = distinct (world, event, concrete args, result)")
@@ -201,6 +216,12 @@ def finding_matches(f, t):
     Any other excess (a second defect on top, a different amount) is not matched and is reported as a violation."""
     sig = (f.get("match") or {}).get("signature")
     info = t.get("info") or {}
+    if sig == "L27":
+        # exactly this halt: BeginBlock panics with "negative coin amount" at a distribution-epoch end while some validator
+        # operator is opted into two AVSs (the fees may come from the fee collector or from a mint earlier in the same block)
+        o, c = t.get("observed") or {}, t.get("ctx") or {}
+        return (o.get("ev") == "BeginBlock" and bool(o.get("panic")) and "negative coin amount" in (o.get("err") or "")
+                and bool(c.get("dist_ended")) and bool(c.get("operator_in_two_avs")))
     if sig == "L11_booked":
         e, s = _int(info.get("excess")), _int(info.get("dsrew"))
         return e is not None and e > 0 and e == s
